@@ -221,20 +221,21 @@ func checkDefs() map[string]CheckDef {
 			each("H_C09_shape", l(1, 2, 8, 13), l(1), l(0, 1, 3, 5), l(2)),
 			each("H_C09_shape", l(1, 8), l(2, 3), l(0, 2, 3, 4, 5, 7, 8, 9, 11), l(2)), each("H_C09_shape", l(2, 13), l(2, 3), l(0, 3, 5, 8), l(2)),
 			each("H_C09_shape", l(8), l(2, 3), l(6), l(0)),
+			each("H_C09_shape", l(1, 2, 8, 13), l(0, 1, 2, 3), l(12), l(2)),
 			each("H_C09_list", l(0), l(0, 1, 2, 3), l(1)), each("H_C09_list", l(1), l(0), l(1)),
 			each("H_C09_hdrs", l(1, 2)), each("H_C09_minmax", l(1, 2, 3))),
 		cat(each("H_C09_shape", l(1, 2, 8, 13), l(0), l(0, 1, 2, 3, 4, 5, 7, 8, 9, 10, 11), l(4, 5)),
 			each("H_C09_shape", l(8), l(2, 3), l(1, 10), l(2)), each("H_C09_shape", l(1, 13), l(2, 3), l(0, 2, 3, 4, 5, 7, 8, 11), l(3)),
 			each("H_C09_list", l(0), l(0, 2), l(3)), each("H_C09_hdrs", l(5))),
-		"From/To/Contact/PAI values built from 12 shapes (angle / quoted name / token name / bare URI / expires+q / lr / star / quoted tag / two-token name / escaped quoted name with fold / bare URI with LWS and 3 parameters / expires+tag+valueless) with class-constrained symbolic components of 2 (4-5) bytes, parameter names in symbolic letter case and symbolic optional LWS (none, SP, HT, fold) at the legal places, directly and through ParseHdrLine (kind of header), also at a non-zero offset and delivered in two pieces (every cut); 3-value lists with commas inside quotes and <> incl. exact spans; min / max expires and counts over two Contact headers + Expires through ParseHeaders with capacities 0..2",
+		"From/To/Contact/PAI values built from 13 shapes (angle / quoted name / token name / bare URI / expires+q / lr / star / quoted tag / two-token name / escaped quoted name with fold / bare URI with LWS and 3 parameters / expires+tag+valueless / other parameters whose symbolic names have the lengths of q, lr, tag, expires) with class-constrained symbolic components of 2 (4-5) bytes, parameter names in symbolic letter case and symbolic optional LWS (none, SP, HT, fold) at the legal places, directly and through ParseHdrLine (kind of header), also at a non-zero offset and delivered in two pieces (every cut); 3-value lists with commas inside quotes and <> incl. exact spans; min / max expires and counts over two Contact headers + Expires through ParseHeaders with capacities 0..2",
 		"values outside the shapes; whitespace inside <>; more than 3 values")
 
 	add("C10",
 		cat(each("H_C10_cseq", seq(1, 21)), each("H_C10_uint", l(0, 1), seq(1, 21)), each("H_C10_status"),
-			each("H_C10_cexp", seq(1, 24)), each("H_C10_q", seq(0, 5)), each("H_C10_port", l(0, 1, 2, 3, 4, 5), seq(1, 8)), each("H_C10_port", l(0, 4), seq(9, 22)),
+			each("H_C10_cexp", seq(1, 24)), each("H_C10_q", seq(0, 5)), each("H_C10_port", l(0, 1, 2, 3, 4, 5, 6, 7, 8), seq(1, 8)), each("H_C10_port", l(0, 4), seq(9, 22)),
 			each("H_C10_hdr", l(0, 1, 2), seq(1, 12)), each("H_C10_cexp_tok", l(0), seq(1, 6)), each("H_C10_cexp_tok", l(1), seq(1, 4))),
-		cat(each("H_C10_hdr", l(0, 1, 2), seq(13, 24)), each("H_C10_cexp_tok", l(0), seq(7, 12)), each("H_C10_cseq", seq(22, 40)), each("H_C10_uint", l(0), seq(22, 36)), each("H_C10_uint", l(1), seq(22, 40)), each("H_C10_cexp", seq(25, 32)), each("H_C10_port", l(0, 1, 3), seq(23, 40))),
-		"every numeric position with all digit strings of length 1..21/24 (40; Expires 36 and Contact expires 32 - the obligations for longer strings time out in z3 and are not claimed): CSeq, Expires, Content-Length, reply status, Contact expires (saturation), q (6 shapes), URI port (6 carriers incl. symbolic passwords before the host); Expires / Content-Length / CSeq header lines of 1..12 (24) digits through ParseHdrLine delivered in two pieces (every cut); Contact expires / q values that are arbitrary alphanumeric tokens of 1..6 (12) bytes (a number only for digit strings); reference = exact 64-bit decimal value of the last 19 digits + leading-zero test",
+		cat(each("H_C10_hdr", l(0, 1, 2), seq(13, 24)), each("H_C10_cexp_tok", l(0), seq(7, 12)), each("H_C10_cseq", seq(22, 40)), each("H_C10_uint", l(0), seq(22, 36)), each("H_C10_uint", l(1), seq(22, 40)), each("H_C10_cexp", seq(25, 32)), each("H_C10_port", l(0, 1, 3), seq(23, 40)), each("H_C10_port", l(6, 8), seq(9, 22))),
+		"every numeric position with all digit strings of length 1..21/24 (40; Expires 36 and Contact expires 32 - the obligations for longer strings time out in z3 and are not claimed): CSeq, Expires, Content-Length, reply status, Contact expires (saturation), q (6 shapes), URI port (9 carriers: with / without user, symbolic passwords before the host, bracketed host, followed by end / parameters / headers); Expires / Content-Length / CSeq header lines of 1..12 (24) digits through ParseHdrLine delivered in two pieces (every cut); Contact expires / q values that are arbitrary alphanumeric tokens of 1..6 (12) bytes (a number only for digit strings); reference = exact 64-bit decimal value of the last 19 digits + leading-zero test",
 		"digit strings longer than 40; chunk schedules of more than two pieces are covered by C02")
 
 	add("C11",
@@ -289,9 +290,9 @@ func checkDefs() map[string]CheckDef {
 
 	add("C15",
 		cat(each("H_C15_reflexive", seq(1, 6)), each("H_C15_symmetric", l(1, 2, 3), l(2, 3)), each("H_C15_entry", l(1, 2, 3), l(1, 2, 3)), each("H_C15_entry_reuse", l(1, 3), l(2, 3)),
-			each("H_C15_case", l(1), l(2)), each("H_C15_case6", l(1), l(2, 3)), each("H_C15_presence", seq(0, 3)), each("H_C15_order", l(0, 1, 2))),
-		cat(each("H_C15_reflexive", l(7, 8, 9, 10)), each("H_C15_symmetric", l(4, 5), l(3, 4)), each("H_C15_symmetric", l(5), l(5)), each("H_C15_entry", l(4, 5), l(3, 4, 5)), each("H_C15_entry_reuse", l(4, 5), l(4, 5)), each("H_C15_case", l(2), l(3)), each("H_C15_case6", l(2), l(5, 6))),
-		"URIs = sip: (any case) + up to 6 (10) symbolic bytes each, all 64 skip-flag sets symbolic; precondition (lists parse, no duplicate names) decided with the library's own list parsers; reflexive, symmetric, flag monotonicity, entry-point agreement incl. handed-back URIs (fresh and re-used hand-back structures), case insensitivity on a template (host name and IPv6 reference with symbolic hex digits), two parameters / headers in opposite order with independent symbolic values (equal iff values agree), presence rule for user/ttl/method/maddr",
+			each("H_C15_case", l(1), l(2)), each("H_C15_case6", l(1), l(2, 3)), each("H_C15_pass", l(1, 2, 3)), each("H_C15_flags", seq(0, 6)), each("H_C15_presence", seq(0, 3)), each("H_C15_order", l(0, 1, 2))),
+		cat(each("H_C15_reflexive", l(7, 8, 9, 10)), each("H_C15_symmetric", l(4, 5), l(3, 4)), each("H_C15_symmetric", l(5), l(5)), each("H_C15_entry", l(4, 5), l(3, 4, 5)), each("H_C15_entry_reuse", l(4, 5), l(4, 5)), each("H_C15_case", l(2), l(3)), each("H_C15_case6", l(2), l(5, 6)), each("H_C15_pass", l(4, 6))),
+		"URIs = sip: (any case) + up to 6 (10) symbolic bytes each, all 64 skip-flag sets symbolic; precondition (lists parse, no duplicate names) decided with the library's own list parsers; reflexive, symmetric, flag monotonicity, entry-point agreement incl. handed-back URIs (fresh and re-used hand-back structures), case insensitivity on a template (host name and IPv6 reference with symbolic hex digits), two parameters / headers in opposite order with independent symbolic values (equal iff values agree), presence rule for user/ttl/method/maddr; passwords of 1-3 (6) symbolic bytes compare byte for byte unless skipped; two full URIs differing in exactly one component (symbolic byte) are equal iff that component's skip flag is set, never when the host differs",
 		"longer URIs; more than 6 parameters")
 
 	add("C16",
@@ -306,9 +307,9 @@ func checkDefs() map[string]CheckDef {
 		cat(each("H_C17_tok", l(0), l(6), seq(0, 6)), each("H_C17_tok", l(20), l(4), l(0, 1, 2)), each("H_C17_lists", l(0), l(6), l(0, 1, 3)),
 			each("H_C17_tok", l(67, 68), l(3), seq(0, 6)), each("H_C17_tok_chunk", l(67, 68), l(3), l(0, 1, 6)),
 			each("H_C17_tok_chunk", l(0), l(6), l(0, 1, 6)), each("H_C17_tok_chunk", l(20), l(4), l(0, 1)),
-			each("H_C17_shape", seq(0, 6), l(2))),
-		cat(each("H_C17_tok", l(0), l(8, 9, 10), seq(0, 6)), each("H_C17_tok_chunk", l(0), l(8, 9), l(0, 1, 6)), each("H_C17_tok", l(67, 68), l(5), seq(0, 6)), each("H_C17_tok_chunk", l(67, 68), l(5), l(0, 1, 6)), each("H_C17_lists", l(0), l(8, 9), l(0, 2)), each("H_C17_shape", seq(0, 6), l(4))),
-		"ParseTokenParam in its documented loop on 6 (10) fully symbolic bytes for 7 option sets (both separators, ',' '?' end-of-header and end-of-input terminators): every reported name/value is inside the documented character set, stripped, in order, with exactly one '=' between them, complete quoted values that end at the first unescaped quote (templates with a 3 (5)-byte window inside a quoted value), and nothing but LWS / separators lies outside the reported parameters; completeness: a 3-parameter list built by construction from symbolic bytes of the documented character set (2 (4)-byte name and value, 1-byte valueless name, quoted value, optional SP / HT around separators) is accepted and reported exactly as written, all 7 option sets; list wrappers count / classify / accumulate; the same loop over an input delivered in two pieces (every cut) for the option sets without the end-of-input option",
+			each("H_C17_shape", seq(0, 6), l(2)), each("H_C17_hlists", l(0), l(6), l(0, 1, 3)), each("H_C17_hlists", l(65), l(3), l(0, 2))),
+		cat(each("H_C17_tok", l(0), l(8, 9, 10), seq(0, 6)), each("H_C17_tok_chunk", l(0), l(8, 9), l(0, 1, 6)), each("H_C17_tok", l(67, 68), l(5), seq(0, 6)), each("H_C17_tok_chunk", l(67, 68), l(5), l(0, 1, 6)), each("H_C17_lists", l(0), l(8, 9), l(0, 2)), each("H_C17_shape", seq(0, 6), l(4)), each("H_C17_hlists", l(0), l(8), l(0, 2))),
+		"ParseTokenParam in its documented loop on 6 (10) fully symbolic bytes for 7 option sets (both separators, ',' '?' end-of-header and end-of-input terminators): every reported name/value is inside the documented character set, stripped, in order, with exactly one '=' between them, complete quoted values that end at the first unescaped quote (templates with a 3 (5)-byte window inside a quoted value), and nothing but LWS / separators lies outside the reported parameters; completeness: a 3-parameter list built by construction from symbolic bytes of the documented character set (2 (4)-byte name and value, 1-byte valueless name, quoted value, optional SP / HT around separators) is accepted and reported exactly as written, all 7 option sets; list wrappers (URI parameters and URI headers) count / classify / accumulate; the same loop over an input delivered in two pieces (every cut) for the option sets without the end-of-input option",
 		"POptTokSpTermF lists; longer inputs")
 
 	add("C18",
